@@ -49,26 +49,12 @@ Definition rsv3Bit : N := Z.to_N websocket_rsv3Bit.
 Definition maskBit : N := Z.to_N websocket_maskBit.
 Definition rsvMask : N := N.lor rsv1Bit (N.lor rsv2Bit rsv3Bit).
 
-Definition is_control (t : Z) : bool :=
-  (t =? websocket_CloseMessage) || (t =? websocket_PingMessage) || (t =? websocket_PongMessage).
-Definition is_data (t : Z) : bool :=
-  (t =? websocket_TextMessage) || (t =? websocket_BinaryMessage).
-
-(* validReceivedCloseCodes (conn.go:205) *)
-Definition valid_received_close_codes : list (Z * bool) :=
-  [ (websocket_CloseNormalClosure, true); (websocket_CloseGoingAway, true);
-    (websocket_CloseProtocolError, true); (websocket_CloseUnsupportedData, true);
-    (websocket_CloseNoStatusReceived, false); (websocket_CloseAbnormalClosure, false);
-    (websocket_CloseInvalidFramePayloadData, true); (websocket_ClosePolicyViolation, true);
-    (websocket_CloseMessageTooBig, true); (websocket_CloseMandatoryExtension, true);
-    (websocket_CloseInternalServerErr, true); (websocket_CloseServiceRestart, true);
-    (websocket_CloseTryAgainLater, true); (websocket_CloseTLSHandshake, false) ].
-
-Fixpoint map_lookup (k : Z) (m : list (Z * bool)) : bool :=
-  match m with [] => false | (k', v) :: r => if k =? k' then v else map_lookup k r end.
-
-Definition is_valid_received_close_code (code : Z) : bool :=
-  map_lookup code valid_received_close_codes || ((3000 <=? code) && (code <=? 4999)).
+(* isControl, isData, validReceivedCloseCodes and isValidReceivedCloseCode are the bodies the
+   translator regenerates from conn.go on every run (Gen_websocket.v) *)
+Definition unres (r : res bool) : bool := match r with Ok b => b | _ => false end.
+Definition is_control (t : Z) : bool := unres (websocket_isControl t).
+Definition is_data (t : Z) : bool := unres (websocket_isData t).
+Definition is_valid_received_close_code (code : Z) : bool := unres (websocket_isValidReceivedCloseCode code).
 
 (* ------------------------------------------------------------------ errors and state *)
 Inductive rerr :=
@@ -524,6 +510,18 @@ Definition rfc_close_sent (o : outcome) : option (option N) :=
   | OTooBig => Some (Some 1009)
   | OClosed code _ => Some code
   end.
+
+(* 5.2 the other way round: a frame on the wire.  form = 7 / 16 / 64: the length encoding used
+   (the RFC demands the shortest; receivers of data frames are not asked to check) *)
+Definition ser_header (fin : bool) (rsv op : N) (masked : bool) (form len : N) (key : bytes) : bytes :=
+  [ (if fin then 128 else 0) + rsv * 16 + op;
+    (if masked then 128 else 0) + (if form =? 7 then len else if form =? 16 then 126 else 127) ]
+  ++ (if form =? 7 then [] else if form =? 16 then be2 len else be8 len)
+  ++ (if masked then key else []).
+
+Definition ser_frame (fin : bool) (rsv op : N) (masked : bool) (form : N) (key payload : bytes) : bytes :=
+  ser_header fin rsv op masked form (lenN payload) key
+  ++ (if masked then rfc_unmask key 0 payload else payload).
 
 Close Scope N_scope.
 
